@@ -52,13 +52,13 @@ def behaviour_ok(spec, got, level):
 def ir_of_source(src):
     """the structure of the emitted main(): what the compiler model predicts as its IR"""
     import re
-    m = re.search(r"while state < (\d+) \{", src)
+    m = re.search(r"while\s+state\s*<\s*(\d+)\s*\{", src)
     blocks = int(m.group(1)) if m else 0
-    st = re.findall(r"\n    state = (\d+);", src)
-    last = re.findall(r"\n    last = Option::(None|Some\((\d+)\));", src)
-    cur = re.findall(r"\n    cur = (\d+);", src)
+    st = re.findall(r"\n\s*state\s*=\s*(\d+)\s*;", src)
+    last = re.findall(r"\n\s*last\s*=\s*(?:Option::)?(None|Some\(\s*(\d+)\s*\))\s*;", src)
+    cur = re.findall(r"\n {0,4}cur\s*=\s*(\d+)\s*;", src)
     pts = sorted((int(a), int(b)) for a, b in re.findall(r"point\.insert\((\d+)u128, (\d+)\);", src))
-    tree = re.findall(r"if state < (\d+) \{", src)
+    tree = re.findall(r"if\s+state\s*<\s*(\d+)\s*\{", src)
     stacks = []
     for i, body in re.findall(r"stack\.data\[(\d+)\] = vec!\[(.*?)\]\.iter\(\)", src):
         vals = re.findall(r'"((?:[^"\\]|\\.)*)", ', body)
